@@ -17,7 +17,7 @@ from lx.lifted import set_eq
 PID = "C02"
 BOUNDS = ("corpus of checks/corpus.py (see C01) incl. 16 expression forms (alias, function, nested function, CASE, nested CASE, CAST, "
           "arithmetic, window, literal, *, q.*) over a join and over a single table, expression depth <= 3, <= 3 relations in scope, "
-          "nesting <= 2; free names: up to 5 (quick) / 7 (thorough) per instance, 2-character bodies (thorough: + 3 and mixed); "
+          "nesting <= 2; free names: up to 5 (quick) / 6 (thorough) per instance, 2-character bodies (thorough: + 3 and mixed); "
           "dialect ansi (thorough: + 5 dialects on a seeded third)")
 STUBS = ["sqllineage.runner.split -> statement handles of the template",
          "SqlFluffLineageAnalyzer._list_specific_statement_segment -> pre-parsed, symbolised tree"]
@@ -61,7 +61,7 @@ def obligations(tier, seed):
 
     rnd = random.Random("c02/%s" % seed)
     tpl = [(k, st) for k, st in corpus.build(tier, seed) if st.kind not in ("bare", "drop", "delete", "truncate", "drop_view", "insert_values")]
-    budget = 5 if tier == "quick" else 7
+    budget = 5 if tier == "quick" else 6
     tabs = [PairOb(k, st, "ansi", "tabs", budget, seed) for k, st in tpl]
     cols = [PairOb(k, st, "ansi", "cols", budget, seed) for k, st in tpl]
     # third family: statement-local names (derived aliases, CTE names, table aliases) first - coincidences BETWEEN scopes
